@@ -85,6 +85,7 @@ func envReset() {
 	envOuts = nil
 	envHook = nil
 	envFaultN = 0
+	envFaultAt, envFaultHits = 0, 0 // a fault armed by an earlier record of the batch must not leak into this one
 }
 
 func envMust(err error) {
